@@ -1002,6 +1002,8 @@ class Typer:
                 and f.value.func.id == "super" and func.cls is not None:
             self._rec(ft, f.value, OTHER)
             self._rec(ft, f, OTHER)
+            if ft is not None:
+                ft.calls[id(f.value)] = CallRes("builtin", None, "super")
             for a in f.value.args:
                 self.ev(func, ft, a, env, yields)
             for b in func.cls.mro()[1:]:
